@@ -1,12 +1,14 @@
-(* C03 proofs, part 9: what sugar writes into an archive, sugar reads back -- under a guard; refuted without it. *)
+(* C03 proofs, part 9: what sugar writes into an archive, sugar reads back (any target name that is visible to glob and does
+   not look like an archive or gzip file itself, with or without a dot); the tool option. *)
 From Coq Require Import List ZArith NArith Bool Lia.
 From Coq.Strings Require Import Byte.
 Import ListNotations.
 From SV Require Import Text G_c03 C03_Model C03_Lemmas C03_Write C03_Resolve.
 
-(* the guard: the archive name is an ordinary local name, the member is visible to *.* and is itself an ordinary name *)
+(* the guard: the archive name is an ordinary local name, the member is not a hidden file and is itself an ordinary name
+   (no archive / gzip extension of its own) *)
 Definition roundtrip_guard (tmp name ext : str) : bool :=
-  plain_name (name ++ dot :: ext) && glob_star_dot_star (basename name)
+  plain_name (name ++ dot :: ext) && glob_star (basename name)
   && simple_name [] [] ANone (tmp ++ [slash] ++ basename name)
   && match resolve_g true [] [] (FStr (tmp ++ glob_tail)) ANone with DGlob p => str_eqb p (tmp ++ glob_tail) | _ => false end.
 
@@ -22,24 +24,30 @@ Proof.
   { rewrite resolve_g_true. apply (resolve_known_archive [] [] name ext ANone He Hp). }
   assert (Hu : fs_unpack (written_fs tmp name ext) (name ++ dot :: ext) None = Some tmp).
   { cbn [written_fs fs_unpack]. rewrite str_eqb_refl. reflexivity. }
-  assert (Hgl : fs_glob (written_fs tmp name ext) (tmp ++ glob_tail) = [tmp ++ [slash] ++ basename name]).
-  { cbn [written_fs fs_glob]. rewrite str_eqb_refl, Hv. reflexivity. }
+  assert (Hgl : glob_files (written_fs tmp name ext) (tmp ++ glob_tail) = [tmp ++ [slash] ++ basename name]).
+  { unfold glob_files. cbn [written_fs fs_glob fs_isdir]. rewrite str_eqb_refl, Hv. reflexivity. }
   rewrite (resolve_run_flat_archive 1 (written_fs tmp name ext) [] [] true (name ++ dot :: ext) ANone (name ++ dot :: ext) None tmp Hd Hu Eg).
   - rewrite Hgl. cbn [map]. apply str_eqb_refl.
   - rewrite Hgl. discriminate.
   - rewrite Hgl. cbn [forallb]. rewrite Hs. reflexivity.
 Qed.
 
-(* without the guard the statement is false: a name without a dot, a hidden name, a member named like a gzip file *)
+(* names without a dot are read back (F50, fixed) *)
+Lemma archive_roundtrip_nodot : forall tmp name ext,
+  In ext KNOWN_ARCHIVE_EXTS -> roundtrip_guard tmp name ext = true -> contains [dot] (basename name) = false ->
+  readback_ok tmp name ext = true.
+Proof. intros tmp name ext He G _. apply archive_roundtrip_partial; assumption. Qed.
+(* without the guard the statement is still false: a hidden target name (glob skips it), a target named like a gzip file *)
 Lemma archive_roundtrip_refuted :
   exists name ext, In ext KNOWN_ARCHIVE_EXTS /\ plain_name (name ++ dot :: ext) = true /\ readback_ok (bs "<T>"%bs) name ext = false.
-Proof. exists (bs "data"%bs), (bs "zip"%bs). vm_compute. repeat split; try reflexivity. left. reflexivity. Qed.
+Proof. exists (bs ".hidden.fa"%bs), (bs "zip"%bs). vm_compute. repeat split; try reflexivity. left. reflexivity. Qed.
 
 Lemma witness_wround :
   roundtrip_guard (bs "<T>"%bs) (bs "dir.d/data.fasta"%bs) (bs "tar.gz"%bs) = true /\
   readback_ok (bs "<T>"%bs) (bs "dir.d/data.fasta"%bs) (bs "tar.gz"%bs) = true /\
   readback_ok (bs "<T>"%bs) (bs "x[1].fa"%bs) (bs "zip"%bs) = false /\
-  readback_ok (bs "<T>"%bs) (bs "data"%bs) (bs "zip"%bs) = false /\
+  roundtrip_guard (bs "<T>"%bs) (bs "dir.d/data"%bs) (bs "zip"%bs) = true /\
+  readback_ok (bs "<T>"%bs) (bs "data"%bs) (bs "zip"%bs) = true /\
   readback_ok (bs "<T>"%bs) (bs ".hidden.fa"%bs) (bs "zip"%bs) = false /\
   readback_ok (bs "<T>"%bs) (bs "x.fa.gz"%bs) (bs "zip"%bs) = false.
 Proof. vm_compute. repeat split; reflexivity. Qed.
